@@ -88,7 +88,7 @@ SUMMARY = {
 
 def main():
   rows = []
-  own_final = any_final = own_first = any_first = n_first = 0
+  tot = {"n": 0, "m_own": 0, "m_any": 0, "f_n": 0, "f_own": 0, "f_any": 0, "z_n": 0, "z_own": 0}
   for sid in sorted(os.listdir(os.path.join(HERE, "seeded"))):
       m = os.path.join(HERE, "seeded", sid, "meta.json")
       if not os.path.exists(m):
@@ -100,22 +100,30 @@ def main():
       others = [f for f in fired if f != own]
       inc = sorted(r["inconclusive"])
       first = d.get("first_measurement_before_strengthening")
+      fin = d.get("final_machinery_own_check")
+      tot["n"] += 1
+      tot["m_own"] += own in fired
+      tot["m_any"] += bool(fired)
       if first:
-          n_first += 1
-          own_first += first["caught_by_own_property_check"]
-          any_first += first["caught_by_any_check"]
+          tot["f_n"] += 1
+          tot["f_own"] += first["caught_by_own_property_check"]
+          tot["f_any"] += first["caught_by_any_check"]
           fcol = ("own check" if first["caught_by_own_property_check"] else ("only " + ", ".join(first["fired"]) if first["fired"] else "**missed by all**"))
       else:
           fcol = ""
-      own_final += own in fired
-      any_final += bool(fired)
-      rows.append((sid, SUMMARY.get(sid, ""), fcol, "yes" if own in fired else "**NO**", ", ".join(others) or "-", ", ".join(inc) or "-"))
-  print("| seeded change | what it does | first measurement (round 4: machinery as committed before the change was looked at) | final machinery: caught by its own check (quick tier) | also fired | inconclusive |")
-  print("|---|---|---|---|---|---|")
+      if fin:
+          tot["z_n"] += 1
+          tot["z_own"] += fin["fired"]
+          zcol = "yes" if fin["fired"] else ("inconclusive" if fin["inconclusive"] else "**NO**")
+      else:
+          zcol = ""
+      rows.append((sid, SUMMARY.get(sid, ""), fcol, "yes" if own in fired else "no", ", ".join(others) or "-", ", ".join(inc) or "-", zcol))
+  print("| seeded change | what it does | first measurement (rounds 4, 5: machinery as tagged before the change was looked at) | full matrix: own check | full matrix: also fired | full matrix: inconclusive | final machinery: own check |")
+  print("|---|---|---|---|---|---|---|")
   for r in rows:
-      print("| %s | %s | %s | %s | %s | %s |" % r)
+      print("| %s | %s | %s | %s | %s | %s | %s |" % r)
   print()
-  print("Totals: %d changes; final machinery: own check fires on %d, some check fires on %d. First measurement (round 4, %d changes): own check %d, some check %d." % (len(rows), own_final, any_final, n_first, own_first, any_first))
+  print("Totals: %(n)d changes. Full matrix (all 20 quick checks per change; for round 5 this IS the first measurement): own check fired on %(m_own)d, some check on %(m_any)d. First measurements (rounds 4 and 5, %(f_n)d changes): own check %(f_own)d, some check %(f_any)d. Final machinery, own check only (%(z_n)d changes): fired on %(z_own)d." % tot)
 
 
 if __name__ == "__main__":
